@@ -102,6 +102,8 @@ func hexStatus(val string, st string) string {
 		return q(val + "0")
 	case "nonhex":
 		return q("g" + val[1:])
+	case "udigit":
+		return q("\u0663" + val[1:len(val)-1]) // ARABIC-INDIC DIGIT THREE (2 bytes) + the rest minus one: same byte length
 	case "empty":
 		return `""`
 	case "number":
@@ -170,6 +172,8 @@ func (w *wireRender) filter(st map[string]string) string {
 			f = append(f, q(key)+":["+hexStatus(a, "upper")+"]")
 		case "short":
 			f = append(f, q(key)+":["+hexStatus(a, "short")+"]")
+		case "udigit":
+			f = append(f, q(key)+":["+hexStatus(a, "udigit")+"]")
 		case "number":
 			f = append(f, q(key)+":[1]")
 		case "notarray":
@@ -232,7 +236,8 @@ func (w *wireRender) filter(st map[string]string) string {
 	}
 	a := map[string]string{"ok": "30000:" + w.pk + ":x", "dcolon": "30000:" + w.pk + ":a:b:c", "emptyd": "30000:" + w.pk + ":",
 		"kind0emptyd": "0:" + w.pk + ":", "kindwrap": "4294967297:" + w.pk + ":d", "twoparts": "30000:" + w.pk, "badkind": "x:" + w.pk + ":d", "kindrange": "70000:" + w.pk + ":d",
-		"badpk": "30000:zz:d", "upperpk": "30000:" + strings.ToUpper(w.pk) + ":d"}
+		"badpk": "30000:zz:d", "upperpk": "30000:" + strings.ToUpper(w.pk) + ":d",
+		"udigitpk": "30000:\u0663" + w.pk[1:len(w.pk)-1] + ":d"}
 	if v, ok := a[st["taga"]]; ok {
 		f = append(f, `"#a":[`+q(v)+`]`)
 	}
@@ -284,6 +289,9 @@ func whitespace(compact string, mode string) string {
 	if mode == "leading" {
 		return " \t" + compact
 	}
+	if mode == "longleading" {
+		return strings.Repeat(" \n\t\r", 60) + compact
+	}
 	if mode == "trailing" {
 		return compact + " \n"
 	}
@@ -292,6 +300,8 @@ func whitespace(compact string, mode string) string {
 		sep = "\n"
 	} else if mode == "tabcr" {
 		sep = "\t\r\n "
+	} else if mode == "longinner" {
+		sep = strings.Repeat(" ", 90) + "\n"
 	}
 	var b strings.Builder
 	inStr, esc := false, false
